@@ -303,10 +303,32 @@ class World:
         return True
 
     def enum_variants(self, ty):
+        from . import types as _types
+
+        sv = _types.synthetic_variants(ty)
+        if sv is not None:
+            return sv
         a = self.prog.adts.get(ty.split("<")[0])
         if a is None:
             raise AnalysisError("no variant list for enum type %s" % ty)
         return a["variants"]
+
+    def fresh_field(self, st, sym, variant, i, ty):
+        from . import types as _types
+
+        return _types.fresh(self.prog, ty, ("field", sym.name, variant, i), getattr(self, "opaque_types", ()))
+
+    # ---- loops: "unroll" (default: concrete loops) or "widen" (havoc what changes, close the path on subsumption)
+    def loop_policy(self, body, head):
+        return "unroll"
+
+    def check_invariant(self, m, st, fr, local, assumed, arriving):
+        return None
+
+    def widen(self, m, st, fr, local, old, new, n):
+        from . import types as _types
+
+        return _types.fresh(self.prog, fr.body.locals[local]["ty"], ("w", fr.uid, local, n), getattr(self, "opaque_types", ()))
 
     def cast_hook(self, st, v, from_ty, to_ty):
         return None
@@ -550,7 +572,7 @@ class Machine:
         opts = self.world.restrict_variants(st, v, opts) if hasattr(self.world, "restrict_variants") else opts
         idx = st.choose(("val", v.name), opts)
         nf = len(variants[idx]["fields"])
-        fields = tuple(Sym(("field", v.name, idx, i), variants[idx]["fields"][i]["ty"]) for i in range(nf))
+        fields = tuple(self.world.fresh_field(st, v, idx, i, variants[idx]["fields"][i]["ty"]) for i in range(nf))
         return Adt(v.ty.split("<")[0], idx, fields)
 
     # ------------------------------------------------------------ operands / constants
@@ -582,6 +604,9 @@ class Machine:
             return Adt(c["ty"].split("<")[0], c["variant"], fields)
         if k == "unevaluated":
             return self.world.unevaluated_const(st, c)
+        h = getattr(self.world, "opaque_const", None)
+        if h is not None:
+            return h(st, c)
         raise AnalysisError("constant kind %s (%s)" % (k, c.get("ty")))
 
     fninfo = {}
@@ -838,15 +863,15 @@ class Machine:
         t = bl["term"]
         k = t["k"]
         if k == "goto":
-            fr.bb, fr.si = t["target"], 0
+            return self.jump(st, fr, t["target"])
         elif k == "switch":
             d = self.operand(st, fr, t["discr"])
-            fr.bb, fr.si = self.switch(st, d, t), 0
+            return self.jump(st, fr, self.switch(st, d, t))
         elif k == "return":
             ret = fr.locals.get(0, UNIT)
             if fr.post is not None:
                 ret = fr.post(self, st, ret)
-            if len(st.frames) == 1:
+            if len(st.frames) == 1 or fr.note == "probe":
                 if not keep_frames:
                     st.frames.pop()
                 return Outcome("return", ret, st, None)
@@ -855,17 +880,20 @@ class Machine:
             self.write_place(st, caller, fr.dest, ret)
             if fr.target is None:
                 raise AnalysisError("return into a diverging call site")
-            caller.bb, caller.si = fr.target, 0
+            return self.jump(st, caller, fr.target)
         elif k == "drop":
-            fr.bb, fr.si = t["target"], 0
+            return self.jump(st, fr, t["target"])
         elif k == "assert":
             c = self.operand(st, fr, t["cond"])
+            h = getattr(self.world, "visit_assert", None)
+            if h is not None:
+                h(st, t)
             if isinstance(c, I):
                 passed = (c.v != 0) == t["expected"]
             else:
                 passed = self.world.on_assert(self, st, t, c)
             if passed:
-                fr.bb, fr.si = t["target"], 0
+                return self.jump(st, fr, t["target"])
             else:
                 return Outcome("panic", None, st, "assert %s at %s:%d" % (t["msg"], t["span"]["file"], t["span"]["line"]))
         elif k == "call":
@@ -874,6 +902,52 @@ class Machine:
             raise Infeasible()
         else:
             raise AnalysisError("terminator %s in %s" % (k, fr.body.id))
+        return None
+
+    _MISSING = object()
+
+    def loop_heads(self, body):
+        lh = getattr(body, "_loop_heads", None)
+        if lh is None:
+            lh = body._loop_heads = set(body.loops().keys())
+        return lh
+
+    def jump(self, st, fr, target):
+        """Transfer control inside `fr`; at a loop head under the 'widen' policy apply widening."""
+        fr.bb, fr.si = target, 0
+        if target not in self.loop_heads(fr.body):
+            return None
+        if self.world.loop_policy(fr.body, target) != "widen":
+            return None
+        loops = st.ext.get("loops")
+        loops = dict(loops) if loops else {}
+        key = (fr.uid, target)
+        info = loops.get(key)
+        if info is None:
+            loops[key] = (dict(fr.locals), frozenset(), 0)
+            st.ext["loops"] = loops
+            return None
+        snap, havoc, n = info
+        diff = [l for l in fr.locals if l not in havoc and fr.locals[l] != snap.get(l, self._MISSING)]
+        # invariants assumed for havoc'd locals must be re-established by the value arriving on the back edge
+        for l in havoc:
+            if l in fr.locals:
+                self.world.check_invariant(self, st, fr, l, snap.get(l), fr.locals[l])
+        if not diff:
+            return Outcome("closed", None, st, "loop at bb%d of %s closed" % (target, fr.body.id))
+        if n > 8:
+            raise AnalysisError("loop at bb%d of %s does not stabilise under widening" % (target, fr.body.id))
+        snap = dict(snap)
+        for l in diff:
+            w = self.world.widen(self, st, fr, l, snap.get(l, self._MISSING), fr.locals[l], n)
+            fr.locals[l] = w
+            snap[l] = w
+        for l in list(snap):
+            if l not in fr.locals:
+                del snap[l]
+        loops[key] = (snap, havoc | frozenset(diff), n + 1)
+        st.ext["loops"] = loops
+        st.emit(("widened", fr.body.id, target, tuple(sorted(diff))))
         return None
 
     def switch(self, st, d, t):
@@ -925,8 +999,7 @@ class Machine:
         if t["target"] is None:
             return Outcome("panic", None, st, "diverging call")
         self.write_place(st, fr, t["dest"], r)
-        fr.bb, fr.si = t["target"], 0
-        return None
+        return self.jump(st, fr, t["target"])
 
     def push_frame(self, st, fr, t, body, args, post=None):
         if len(st.frames) > self.world.inline_depth:
